@@ -51,6 +51,29 @@ check('C04', 'proof',
       'Lean 4 proof by induction over the numeral group structure + regenerated maps + unit/pipeline correspondence',
       'DESIGN.md §3 C04')
 
+check('C06', 'proof',
+      'Lean model of match_to_date / generate_dates + validity guard / luis_date / _date_time_resolution. Proved for every layout '
+      'group decoding, every table spelling, every reference: abs_date (valid date, 1900-2099 -> exactly [YYYY-MM-DD, date, '
+      'YYYY-MM-DD], independent of the reference: abs_date_reference_independent), two_digit_year (interval read from the '
+      'regenerated pivots) + gap + witness 3/5/30 -> 0030, invalid_date_not_resolved; table facts re-decided by the kernel on '
+      'the regenerated month/day maps of 8 cultures. Tie: unit correspondence (format on all 73,049 dates, generate_dates '
+      'grid, ~7.8k real match_to_date calls in 8 cultures) and a pipeline over the committed layout contract '
+      'contracts/C06.json x references 1950..2090 x carrier sentences.',
+      TB + 'Regex engine, extractors, get_year_from_text and ChineseDateParser are not modelled (pipeline only); thorough covers '
+      'every date and every layout but not their full product.',
+      'Lean 4 proof about a faithful model + regenerated tables + unit/pipeline correspondence', 'DESIGN.md §3 C06')
+
+check('C07', 'proof',
+      'Lean model of match_to_time (incl. Python truthiness; both variants of the hour-0 test), English adjust_by_prefix/suffix, '
+      'DateTimeFormatUtil incl. to_pm/all_str_to_pm, _resolve_ampm, merge_date_and_time. Proved for all h<24, m,s<60, any '
+      'reference/config: clock24, clock12, ambiguous_two_readings (exactly two values twelve hours apart), date_at_time '
+      '(timex = date timex ++ time timex, one or two readings); regression witness clock24_hour0_unresolved for the pre-fix '
+      'code. Tie: format util over full ranges, ~5k real match_to_time calls, resolution and merge unit correspondence; '
+      'pipeline: all 86,400 HH:MM:SS in thorough, 12-hour spellings x am/pm/a.m./p.m./none, <date> at <time> x references.',
+      TB + 'Group values and desc/prefix/suffix regex outcomes are model inputs; other cultures\' adjust_by_prefix/adjust_by_suffix '
+      'are not modelled. Defect hour0-unresolved found by this check and fixed (5938cc07e).',
+      'Lean 4 proof about a faithful model + unit/pipeline correspondence', 'DESIGN.md §3 C07')
+
 check('C08', 'proof',
       'Lean theorems for EVERY reference datetime (valid date 0001..9999, no other bound) and every N about a '
       'function-by-function model of DateUtils.this/next/last, AgoLaterUtil.get_date_result, parse_implicit_date (special days, '
